@@ -269,6 +269,25 @@ def run(tier):
                 disagreements.append((src, mobs, real if real[0] == 'err' else r[1]))
     for k in (0, 7, len(progs) + 1):
         chk.sample({'source': srcs[k], 'real': res[k][1] if res[k][0] == 'ok' else list(res[k][:3]), 'model': model[k]})
+    # ---- the indirection @@p: the name held by @p is itself looked up lexically from the place of use, wherever @p was found
+    #      (seeded C03-5: target looked up from the pointer's frame); expected values written out
+    ind = []
+    for q in ('"c"', "'c'"):     # (an unquoted name is reported as an illegal indirection: LESS wants a string here)
+        ind += [('@p: %s; @c: red; .a { @c: blue; x: @@p; }' % q, '.a{x:blue;}'),
+                ('@p: %s; @c: red; .a { .b { @c: blue; x: @@p; } y: @@p; }' % q, '.a{y:red;}\n.a .b{x:blue;}'),
+                ('@p: %s; .a { @c: blue; x: @@p; }' % q, '.a{x:blue;}'),
+                ('@c: red; .a { @p: %s; .b { @c: green; x: @@p; } }' % q, '.a .b{x:green;}'),
+                ('.a { @p: %s; @c: blue; x: @@p; } @c: red;' % q, '.a{x:blue;}'),
+                ('@p: %s; @c: red; .a { x: @@p; }' % q, '.a{x:red;}'),
+                ('@p: %s; @c: red; .m(@c) { x: @@p; } .a { .m(blue); }' % q, '.a{x:blue;}')]
+    ires = C.compile_many([(a_, dict(minify=True)) for a_, _w in ind])
+    for (a_, want), r in zip(ind, ires):
+        chk.count(('indirection', a_), nontrivial=True)
+        if r[0] != 'ok' or r[1].strip() != want:
+            chk.violation({'kind': 'indirection', 'source': a_, 'expected': want, 'actual': r[1] if r[0] == 'ok' else list(r[:3])})
+            if len(chk.violations) > 5:
+                break
+    stats['indirection_cases'] = len(ind)
     C.replay_known(chk, PROP)
     chk.cov['disagreements_checked'] = len(disagreements)
     chk.cov['exhaustive'] = False
